@@ -57,25 +57,13 @@ Theorem sbom_roundtrip_cdx_on_D :
 Proof. exact sbom_roundtrip_cdx_on_D_lemma. Qed.
 Print Assumptions sbom_roundtrip_cdx_on_D.
 
-(* D is implied by: every purl type is one the built-in extractors emit, other than the known offender
-   (snap), and packageurl-go can parse the printed purl back -- this is where C14's table theorem enters *)
+(* D is implied by: every purl type is one the built-in extractors emit and packageurl-go can parse the
+   printed purl back -- this is where C14's table theorem (emitted_types_valid, full strength) enters *)
 Theorem emitted_inventories_in_D : forall inv,
-  (forall p, In p (inv_purls inv) -> In (p_type p) emitted_types /\ in_D_type (p_type p) = true /\ norm p <> None) ->
+  (forall p, In p (inv_purls inv) -> In (p_type p) emitted_types /\ norm p <> None) ->
   roundtrip_D inv = true.
 Proof. exact emitted_inventories_in_D_lemma. Qed.
 Print Assumptions emitted_inventories_in_D.
-
-(* The full statement (every inventory over emitted purl types) is FALSE: a package of the os/snap extractor
-   is exported and silently dropped on import, in every format *)
-Theorem sbom_roundtrip_refuted :
-  forall (pstring : purl -> bytes) (pparse : bytes -> option purl),
-    (forall p, law_domain p = true -> pparse (pstring p) = norm p) ->
-    exists inv d,
-      to_spdx pstring inv = Ok d /\
-      (forall p, In p (inv_purls inv) -> In (p_type p) emitted_types /\ norm p <> None /\ law_domain p = true) /\
-      ~ Permutation (map Some (purls_of (import_spdx pparse d))) (map norm (inv_purls (exportable_spdx inv))).
-Proof. exact sbom_roundtrip_refuted_lemma. Qed.
-Print Assumptions sbom_roundtrip_refuted.
 
 (* SPDX tag-value: the document ToSPDX23 builds is never inside the domain of the tag-value codec -- every
    package, starting with the synthetic main package, carries supplier type NOASSERTION, which the writer
@@ -106,5 +94,6 @@ Example roundtrip_example :
   length (inv_purls (exportable_cdx ex_inv15)) = 3.
 Proof. vm_compute. repeat split; reflexivity. Qed.
 
-Example snap_outside_D : roundtrip_D [snap_pkg] = false /\ importable snap_purl = false.
-Proof. vm_compute. split; reflexivity. Qed.
+(* regression: the os/snap package that used to be dropped on import is inside D now *)
+Example snap_inside_D : roundtrip_D [snap_pkg] = true /\ importable snap_purl = true /\ In (p_type snap_purl) emitted_types.
+Proof. vm_compute. repeat split; try reflexivity. tauto. Qed.
